@@ -3,6 +3,7 @@ package rules
 import (
 	"go/token"
 	"sort"
+	"strings"
 
 	"golang.org/x/tools/go/ssa"
 
@@ -184,4 +185,31 @@ func checkPackageVarsFrozen(p *core.Program, r *core.Report, rule string, pkg *s
 		}
 	}
 	r.Floor(rule, "package-level variables of the "+what, len(globals), floor)
+}
+
+// mentionsVar: an R16.6 obligation about one of the named variables (the construct text names the
+// variable after the word "variable").
+func mentionsVar(construct string, names ...string) bool {
+	for _, n := range names {
+		if n == "" {
+			continue
+		}
+		i := strings.Index(construct, "variable "+n)
+		if i < 0 {
+			continue
+		}
+		rest := construct[i+len("variable "+n):]
+		if rest == "" || rest[0] == ' ' {
+			return true
+		}
+	}
+	return false
+}
+
+// classTableName resolves the class table (flag -> class string) by role.
+func classTableName(p *core.Program) string {
+	if iv := classTable(p, core.GlobalInits(p.Lib)); iv != nil && iv.Global != nil {
+		return iv.Global.Name()
+	}
+	return ""
 }
